@@ -17,13 +17,12 @@ fn read_link_target(file_info: &WalkEntry) -> Option<PathBuf> {
             // If it's not a symlink, then it's not an error that should be
             // shown.
             if err.kind() != std::io::ErrorKind::InvalidInput {
-                writeln!(
+                let _ = writeln!(
                     &mut stderr(),
                     "Error reading target of {}: {}",
                     file_info.path().display(),
                     err
-                )
-                .unwrap();
+                );
             }
 
             None
